@@ -101,7 +101,7 @@ func main() {
 	run.Rule("A (unit): sender context = key {all-zero, all-0xFF, pi digits, e digits} (30 bytes = the library's constant) x SSRC set {{0},{2^32-1},{0x12345678},{0,2^32-1},{1,2^31},{0,2^32-1,0xDEADBEEF}} x starting roll-over counter {0,1,65535,2^32-1} x MKI {none, 4 bytes} x payload length 0..64; " +
 		"each case: contextToMikey -> Message.Marshal -> KeyMgmt header Marshal/Unmarshal AND SDP a=key-mgmt via description.Session Marshal / sdpunmarshaler / Unmarshal2 -> mikeyToContext (two receivers, parameters compared), then RTP sequence numbers 65530..65535,0..10 for every SSRC (size +10 [+MKI], payload not visible, decrypted == sent), 3 rounds of RTCP {SR, RR, SR+SDES compound, APP with the payload when length%4==0} for every SSRC (size +14 [+MKI]), and a late joiner (second MIKEY message after the counter advanced) for 3 more packets; the reverse direction runs interleaved with the mirrored configuration (next key, next SSRC set, next counter). " +
 		"B (wire, real Server with TLSConfig + real Client with rtsps on memnet, medias with 2 formats = 2 SSRCs per MIKEY message, sequence numbers wrap in every stream): clear-payload pass = flows {play, record, play with back channel} x {udp, tcp over real TLS, tcp with the TLS layer replaced by the identity at the library's seams so that interleaved frames are visible} x every write entry point x every format, 8 (thorough 32) patterned packets each + positive controls {play, record} x {udp, tcp} without TLS; " +
-		"tamper pass = targets {play: s2c rtp, s2c rtcp, c2s rtcp; record: c2s rtp, c2s rtcp, s2c rtcp; back channel: c2s rtp; thorough adds session-level s2c rtp/rtcp and back-channel c2s rtcp} x {udp datagrams, interleaved frames of the identity-TLS variant}; alterations of one protected packet: quick = every bit of the first 48 and the last 16 bytes (= every bit of the 54/58-byte packets), thorough = every bit plus every byte set to 0x00 and to 0xFF (identity alterations skipped) and a second RTP shape (CSRC + one-byte header extension, 96-byte payload, 130 bytes protected); plus one bit of each SSRC byte of the FIRST packet of a stream (4 fresh worlds, play s2c and record c2s). " +
+		"tamper pass = targets {play: s2c rtp, s2c rtcp, c2s rtcp; record: c2s rtp, c2s rtcp, s2c rtcp; back channel: c2s rtp; thorough adds session-level s2c rtp/rtcp and back-channel c2s rtcp} x {udp datagrams, interleaved frames of the identity-TLS variant}; alterations of one protected packet: quick = every bit of the first 48 and the last 16 bytes (= every bit of the 54/58-byte packets), thorough = every bit plus every byte set to 0x00 and to 0xFF (identity alterations skipped) and a second RTP shape (CSRC + one-byte header extension, 96-byte payload, 130 bytes protected); plus one bit of each SSRC byte of the FIRST packet of a stream (4 fresh worlds, play s2c and record c2s): the altered copy is rejected AND the unaltered original and the packets after it are delivered. " +
 		"C (admission): server TLS {off,on} x mode {play, record} x profile {AVP, SAVP} x {udp, tcp interleaved, multicast request} through a raw peer (sysx.Peer / the same over crypto/tls), 6 preference lists of two transports per server, the real client scheme {rtsp, rtsps} x protocol {auto, udp, tcp} against both servers, and redirects {301,302,303,304,305} x Location {rtsp other port, rtsp same port, rtsp with user info, RTSP upper case} from an rtsps URL, with controls (same-scheme redirect followed, on both servers). " +
 		"D (late joiners on the wire): secure stream written from sequence number 65530 (thorough: also 65535, 65524) for 10 (14) packets across the wrap x transport {udp, tcp over TLS, tcp identity-TLS} x which of the media's two formats carries the packets (the other stays idle) x EVERY join point j = 0..N (a fresh rtsps reader does DESCRIBE/SETUP/PLAY after exactly j packets; nothing is written while it joins), then the remaining packets + 4: every packet written after PLAY completed must be delivered decrypted with the written payload, no decode error. " +
 		"E (readers with different profiles on one secure stream): an RTSPS server, one raw reader over RTP/AVP/TCP inside TLS and one library reader over RTP/SAVP/UDP on the same stream, both joining orders, 32 (thorough 96) patterned packets: no datagram towards the secure reader shows the payload, the secure reader receives every packet decrypted. " +
